@@ -394,7 +394,8 @@ class ColumnBackend(PolarsSchemaBackend):
             default_value = pl.lit(schema.default, dtype=schema.dtype.type)
         expr = pl.col(schema.selector)
         if is_float_dtype(check_obj, schema.selector):
-            expr = expr.fill_nan(default_value)
+            # a float column holds both kinds of missing value
+            expr = expr.fill_nan(default_value).fill_null(default_value)
         else:
             expr = expr.fill_null(default_value)
 
